@@ -56,7 +56,7 @@ fn model_byte(key: &[u8; 16], input: u64, pos: usize) -> u8 {
 #[kani::stub(anyhow::__private::format_err, error_is_failure)]
 #[kani::stub(aes::soft::fixslice::aes128_key_schedule, ks_stub)]
 #[kani::stub(aes::soft::fixslice::aes128_encrypt, enc_model)]
-fn u32_in_range_unbiased() {
+pub fn u32_in_range_unbiased() {
     let key: [u8; 16] = kani::any();
     let input: u64 = kani::any();
     let m: u32 = kani::any();
@@ -93,7 +93,7 @@ fn u32_in_range_unbiased() {
 #[kani::stub(anyhow::__private::format_err, error_is_failure)]
 #[kani::stub(aes::soft::fixslice::aes128_key_schedule, ks_stub)]
 #[kani::stub(aes::soft::fixslice::aes128_encrypt, enc_model)]
-fn u32_in_range_rejects_biased_tail() {
+pub fn u32_in_range_rejects_biased_tail() {
     let key: [u8; 16] = kani::any();
     let input: u64 = kani::any();
     let m: u32 = kani::any();
@@ -131,7 +131,7 @@ fn u32_in_range_rejects_biased_tail() {
 #[kani::stub(anyhow::__private::format_err, error_is_failure)]
 #[kani::stub(aes::soft::fixslice::aes128_key_schedule, ks_stub)]
 #[kani::stub(aes::soft::fixslice::aes128_encrypt, enc_model)]
-fn stream_handover() {
+pub fn stream_handover() {
     let key: [u8; 16] = kani::any();
     let input: u64 = kani::any();
     let prf = PrfHandle::new(Some(key)).unwrap();
@@ -163,7 +163,7 @@ fn stream_handover() {
 #[kani::stub(anyhow::__private::format_err, error_is_failure)]
 #[kani::stub(aes::soft::fixslice::aes128_key_schedule, ks_stub)]
 #[kani::stub(aes::soft::fixslice::aes128_encrypt, enc_model)]
-fn number_across_boundary() {
+pub fn number_across_boundary() {
     let key: [u8; 16] = kani::any();
     let input: u64 = kani::any();
     let prf = PrfHandle::new(Some(key)).unwrap();
@@ -196,7 +196,7 @@ fn number_across_boundary() {
 #[kani::stub(anyhow::__private::format_err, error_is_failure)]
 #[kani::stub(aes::soft::fixslice::aes128_key_schedule, ks_stub)]
 #[kani::stub(aes::soft::fixslice::aes128_encrypt, enc_model)]
-fn permutation_valid_and_stateless() {
+pub fn permutation_valid_and_stateless() {
     let key: [u8; 16] = kani::any();
     let input: u64 = kani::any();
     let other: u64 = kani::any();
